@@ -42,7 +42,9 @@ var c02AddrValues = []struct {
 	name  string
 	build func() any
 }{
-	{"map-of-struct-pointers", func() any { return map[string]any{"x": &c02Node{Title: "t"}, "y": &c02Node{Title: "u", Next: &c02Node{Title: "w"}}} }},
+	{"map-of-struct-pointers", func() any {
+		return map[string]any{"x": &c02Node{Title: "t"}, "y": &c02Node{Title: "u", Next: &c02Node{Title: "w"}}}
+	}},
 	{"struct-with-pointer-fields", func() any {
 		n, k := 3, 4
 		t := time.Date(2024, 3, 1, 12, 0, 0, 0, time.UTC)
